@@ -250,6 +250,27 @@ def check_corpus(corpus, fails, counts):
                             break
                 # ---------------- matcher level (single segment only: per-segment matchers)
                 if nseg != 1:
+                    # over several segments the top-level matcher of a term is a MultiMatcher: its skip_to_quality must not
+                    # pass over an entry scoring more than the threshold (compound kinds are checked per segment only)
+                    if kind == "term" and scored:
+                        ctx = s.context()
+                        m0 = q.matcher(s, ctx)
+                        if m0.is_active() and m0.supports_block_quality():
+                            for j in range(len(refids)):
+                                for qth in sorted(set([0.5] + [x for _, x in refl] + [x + 0.5 for _, x in refl])):
+                                    m = q.matcher(s, ctx)
+                                    for _ in range(j):
+                                        m.next()
+                                    m.skip_to_quality(qth)
+                                    newp = m.id() if m.is_active() else 10 ** 9
+                                    lost = [(d, x) for d, x in refl[j:] if d < newp and x > qth]
+                                    if newp < refids[j] or lost or (m.is_active() and newp not in refids):
+                                        fail("C12-skip_to_quality-multi", "top-level matcher over %d segments at %d: skip_to_quality(%r) -> %r passes %r"
+                                             % (nseg, refids[j], qth, newp, lost))
+                                        break
+                                else:
+                                    continue
+                                break
                     continue
                 ctx = s.context()
                 mk = lambda: q.matcher(s, ctx)
